@@ -261,7 +261,7 @@ void HttpMessage::readHeaders()
 			if (more.ok())
 			{
 				headerValue = headerValue.ok() ? headerValue + ' ' + more : more;
-				setHeader(headerName, headerValue);
+				_headers[capitalized(headerName)] = headerValue;
 			}
 			continue;
 		}
@@ -273,7 +273,7 @@ void HttpMessage::readHeaders()
 		}
 		headerName = line.substring(0, i);
 		headerValue = line.substring(i + 1).trimmed(); // the space after ':' is optional
-		setHeader(headerName, headerValue);
+		_headers[capitalized(headerName)] = headerValue; // stored as received: a field with an empty value is a field (setHeader would remove it)
 	}
 }
 
